@@ -7,7 +7,12 @@ From ME Require Import Base.Machine.
 Import ListNotations.
 
 Inductive wpc := WDeref | WHold | WDropped | WBlocked (notified : bool) | WClear | WExit.
-Inductive ev := UserDrop | WorkerDeref | WorkerRelease | WorkerWait | WorkerWoke | WorkerClear | OtherSet.
+(* WorkerDeref carries what the real `executor_ref()` returned (alive or None), WorkerWait whether the real wait found
+   the event set: the acceptor checks both observations against its own state (lockstep, harness/p_c12w.py).
+   WorkerLoop: an iteration that ends with `continue` (no wait): the temporary reference is simply rebound by the next
+   deref.  WorkerTimeout: a timed wait that expired un-notified. *)
+Inductive ev := UserDrop | WorkerDeref (alive : bool) | WorkerRelease | WorkerWait (found_set : bool) | WorkerWoke | WorkerClear
+              | OtherSet | WorkerLoop | WorkerTimeout.
 
 Record st := { userref : bool; wstrong : bool; collected : bool; flag : bool; wp : wpc }.
 Definition init : st := {| userref := true; wstrong := false; collected := false; flag := false; wp := WDeref |}.
@@ -21,7 +26,8 @@ Definition step (s : st) (e : ev) : option st :=
         if wstrong s then Some {| userref := false; wstrong := true; collected := false; flag := flag s; wp := wp s |}
         else Some {| userref := false; wstrong := false; collected := true; flag := true; wp := notify (wp s) |}   (* finalised: callback sets the event *)
       else None
-  | WorkerDeref =>
+  | WorkerDeref alive =>
+      if negb (Bool.eqb alive (negb (collected s))) then None else
       match wp s with
       | WDeref => if collected s then Some {| userref := userref s; wstrong := false; collected := true; flag := flag s; wp := WExit |}
                   else Some {| userref := userref s; wstrong := true; collected := false; flag := flag s; wp := WHold |}
@@ -31,7 +37,8 @@ Definition step (s : st) (e : ev) : option st :=
       | WHold => if userref s then Some {| userref := true; wstrong := false; collected := false; flag := flag s; wp := WDropped |}
                  else Some {| userref := false; wstrong := false; collected := true; flag := true; wp := WDropped |}
       | _ => None end
-  | WorkerWait =>
+  | WorkerWait found_set =>
+      if negb (Bool.eqb found_set (flag s)) then None else
       match wp s with
       | WDropped => Some {| userref := userref s; wstrong := wstrong s; collected := collected s; flag := flag s;
                             wp := if flag s then WClear else WBlocked false |}
@@ -39,6 +46,10 @@ Definition step (s : st) (e : ev) : option st :=
   | WorkerWoke => match wp s with WBlocked true => Some {| userref := userref s; wstrong := wstrong s; collected := collected s; flag := flag s; wp := WClear |} | _ => None end
   | WorkerClear => match wp s with WClear => Some {| userref := userref s; wstrong := wstrong s; collected := collected s; flag := false; wp := WDeref |} | _ => None end
   | OtherSet => Some {| userref := userref s; wstrong := wstrong s; collected := collected s; flag := true; wp := notify (wp s) |}
+  | WorkerLoop => match wp s with WHold => Some s | _ => None end
+  | WorkerTimeout => match wp s with
+                     | WBlocked _ => Some {| userref := userref s; wstrong := wstrong s; collected := collected s; flag := flag s; wp := WClear |}
+                     | _ => None end
   end.
 
 Definition heading_to_deref (p : wpc) : bool := match p with WDeref | WClear | WBlocked true | WExit => true | _ => false end.
@@ -56,7 +67,8 @@ Proof. constructor; simpl; auto; try discriminate. split; discriminate. Qed.
 Lemma inv_step s e s' : Inv s -> step s e = Some s' -> Inv s'.
 Proof.
   intros [Ic Ib Ia Ih] H. destruct s as [u w c f p]. simpl in *.
-  destruct e; simpl in H;
+  destruct e as [|al| |fs| | | | |]; simpl in H;
+    try destruct al; try destruct fs;
     destruct u, w, c, f; destruct p as [| | |[|]| |]; simpl in H; try discriminate;
     inversion H; subst; clear H; constructor; simpl in *;
     intuition (try discriminate; try congruence).
@@ -79,11 +91,47 @@ Theorem not_collected_while_referenced s : reachable_from step init s -> collect
 Proof. intros R. apply (reachable_inv s R). Qed.
 
 (* the deref after collection exits the loop *)
-Theorem deref_after_collection_exits s s' : collected s = true -> wp s = WDeref -> step s WorkerDeref = Some s' -> wp s' = WExit.
-Proof. intros C W H. simpl in H. rewrite W, C in H. inversion H; reflexivity. Qed.
+Theorem deref_after_collection_exits s s' al : collected s = true -> wp s = WDeref -> step s (WorkerDeref al) = Some s' -> wp s' = WExit /\ al = false.
+Proof. intros C W H. simpl in H. rewrite W, C in H. destruct al; simpl in H; [discriminate|]. inversion H; split; reflexivity. Qed.
+
+(* what the real deref returns is determined: the executor object while it has not been finalised, None afterwards *)
+Theorem deref_observation s s' al : step s (WorkerDeref al) = Some s' -> al = negb (collected s).
+Proof. simpl. destruct al, (collected s); simpl; intros H; try discriminate; reflexivity. Qed.
+
+(* a timed wait changes nothing: after collection the worker is still never asleep un-notified, and a worker that timed
+   out goes through clear to the deref that ends it *)
+Theorem timeout_leads_to_deref s s' : step s WorkerTimeout = Some s' -> wp s' = WClear.
+Proof. simpl. destruct (wp s); intros H; try discriminate; inversion H; reflexivity. Qed.
 
 (* if the loop waited BEFORE dropping its strong reference, a drop by the user during the wait would
    never be noticed (no finaliser runs): witness *)
 Theorem holding_while_waiting_refuted :
   exists s, userref s = false /\ collected s = false /\ wstrong s = true.
 Proof. exists {| userref := false; wstrong := true; collected := false; flag := false; wp := WHold |}. repeat split. Qed.
+
+(* ---- wire format (harness/p_c12w.py) --------------------------------------------------------------- *)
+From Coq Require Import ZArith.
+Local Open Scope Z_scope.
+Definition decode (l : list Z) : option ev :=
+  match l with
+  | [0] => Some UserDrop
+  | [1; a] => Some (WorkerDeref (Z.eqb a 1))
+  | [2] => Some WorkerRelease
+  | [3; f] => Some (WorkerWait (Z.eqb f 1))
+  | [4] => Some WorkerWoke
+  | [5] => Some WorkerClear
+  | [6] => Some OtherSet
+  | [7] => Some WorkerLoop
+  | [8] => Some WorkerTimeout
+  | _ => None
+  end.
+Fixpoint decode_all (ls : list (list Z)) : option (list ev) :=
+  match ls with
+  | [] => Some []
+  | l :: r => match decode l, decode_all r with Some e, Some es => Some (e :: es) | _, _ => None end
+  end.
+Definition accept (ls : list (list Z)) : list Z :=
+  match decode_all ls with
+  | None => [-2]
+  | Some es => match first_reject step init es 0%nat with None => [-1] | Some i => [Z.of_nat i] end
+  end.
